@@ -329,6 +329,12 @@ func c10BaseFiles(ctx *core.Ctx, n int) [][]byte {
 		shape := gen.Shape{Schemas: 1 + r.Intn(3), Channels: 1 + r.Intn(4), Messages: 2 + r.Intn(14), Attachments: r.Intn(3), Metadata: r.Intn(3), MaxPayload: 50, MaxLongStr: 24, ManyMapKeys: 3,
 			TimeMode: []string{"asc", "smallrand", "boundary", "ties"}[r.Intn(4)], Rewrites: r.Intn(3) == 0, TrailingChannels: r.Intn(4) == 0}
 		w := gen.RandWorkload(r, shape)
+		if i%10 == 9 {
+			// uniform files: one channel, equal-sized messages, several chunks of different message counts -
+			// stale bytes of one chunk then line up with the record boundaries of another
+			out = append(out, c10UniformFile(r))
+			continue
+		}
 		if i%3 == 2 {
 			// reference-encoder layouts: empty chunks, odd summary orders, per-chunk compressions
 			_, _, nm, _, _ := w.Counts()
@@ -348,6 +354,23 @@ func c10BaseFiles(ctx *core.Ctx, n int) [][]byte {
 		}
 	}
 	return out
+}
+
+func c10UniformFile(r *rand.Rand) []byte {
+	w := &gen.Workload{}
+	ch := &refmcap.Channel{ID: uint16(1 + r.Intn(3)), Topic: "uniform", MessageEncoding: "x"}
+	w.Ops = append(w.Ops, refmcap.Item{Channel: ch})
+	psize := r.Intn(12)
+	recSize := 9 + 22 + psize
+	k := gen.Config{Chunked: true, ChunkSize: int64(recSize*(2+r.Intn(4)) - 1), Compression: []string{"zstd", "zstd", "lz4", ""}[r.Intn(4)], IncludeCRC: r.Intn(2) == 0}
+	n := 5 + r.Intn(14)
+	for i := 0; i < n; i++ {
+		d := make([]byte, psize)
+		r.Read(d)
+		w.Ops = append(w.Ops, refmcap.Item{Message: &refmcap.Message{ChannelID: ch.ID, Sequence: uint32(i), LogTime: uint64(i), PublishTime: uint64(i), Data: d}})
+	}
+	res := drive.RunWriter(w, k, drive.NewSink(), nil)
+	return res.Bytes()
 }
 
 func repairChunkCRC(data []byte, chunk *refmcap.Rec) {
@@ -390,11 +413,35 @@ func c10Inputs(ctx *core.Ctx, nStructured, nRandom, nSplice int) ([]WorkItem, ma
 		ft := t.ts[r.Intn(len(t.ts))]
 		d := append([]byte(nil), t.data...)
 		var v uint64
-		switch r.Intn(4) {
+		kind := "field"
+		switch r.Intn(6) {
 		case 0:
 			v = ft.value + 1
 		case 1:
 			v = ft.value - 1
+		case 2, 3:
+			// the value the same field has in another record of this file (a chunk that declares its
+			// neighbour's size, an index entry that designates another record, ...), else the value of
+			// any other field of the same width
+			kind = "field-cross"
+			var pool []uint64
+			for _, o := range t.ts {
+				if o.abs != ft.abs && o.width == ft.width && o.value != ft.value && o.name == ft.name {
+					pool = append(pool, o.value)
+				}
+			}
+			if len(pool) == 0 || r.Intn(4) == 0 {
+				for _, o := range t.ts {
+					if o.abs != ft.abs && o.width == ft.width && o.value != ft.value {
+						pool = append(pool, o.value)
+					}
+				}
+			}
+			if len(pool) == 0 {
+				v = ft.value + 1
+			} else {
+				v = pool[r.Intn(len(pool))]
+			}
 		default:
 			v = hostileValues[r.Intn(len(hostileValues))]
 		}
@@ -402,12 +449,11 @@ func c10Inputs(ctx *core.Ctx, nStructured, nRandom, nSplice int) ([]WorkItem, ma
 			v = uint64([]byte{0, 1, 2, 5, 6, 9, 0x0f, 0x10, 0x80, 0xff}[r.Intn(10)])
 		}
 		putWidth(d[ft.abs:], ft.width, v)
-		kind := "field"
 		if ft.chunk != nil {
-			kind = "field-in-chunk"
+			kind += "-in-chunk"
 			if r.Intn(2) == 0 {
 				repairChunkCRC(d, ft.chunk)
-				kind = "field-in-chunk-crc-repaired"
+				kind += "-crc-repaired"
 			}
 		}
 		add(kind, d, nil)
@@ -530,7 +576,7 @@ func judgeC10(ctx *core.Ctx, rep *core.Report, items []WorkItem, results map[int
 			continue
 		}
 		if res.Timeout {
-			rep.Violate("cpu-budget-exceeded", fmt.Sprintf("input %d (%s, %d bytes): %s consumed more than %d CPU-seconds twice", id, it.Kind, len(it.Data), res.Entry, cpuBudgetSecs), witness)
+			rep.Violate("cpu-budget-exceeded", fmt.Sprintf("input %d (%s, %d bytes): %s consumed more than its CPU budget (%d s + %d s per GiB allocated) twice", id, it.Kind, len(it.Data), res.Entry, cpuBudgetSecs, cpuSecsPerGiB), witness)
 			continue
 		}
 		nontrivial := false
@@ -736,7 +782,7 @@ func runLimitsStage(ctx *core.Ctx, rep *core.Report, lim []WorkItem) {
 
 func RunC10(ctx *core.Ctx, rep *core.Report) {
 	rep.Rule = "inputs <= 64 KiB: 60 valid base files (Go writer and reference-encoder layouts); structured mutations (every integer field of every record - incl. record lengths, opcodes, string/map/array length prefixes, offsets, sizes, times, inside uncompressed chunks with the chunk CRC optionally repaired - set to value+-1 or one of {0,1,2,8,9,2^31-1,2^31,2^32-1,2^32,2^63-1,2^63,2^64-9,2^64-1}); truncation, splicing, duplicated records, nested chunks, unknown compression names, bit flips; random byte strings (bare, after a magic, after a header, framed as a known record). " +
-		"Each input goes through every public decode entry point in an isolated child process (address space capped at 16 GiB, stack 256 MiB, CPU watchdog 60 CPU-s, journalled per call): lexer under 12 option combinations (4 fixed + 8 seeded out of all 256), 15 Parse*/PopulateFrom functions on the raw bytes and on every record body, NewReader/Info/ChannelCounts/GetMetadata/GetAttachmentReader at reported and boundary offsets, Messages in 8 modes. " +
+		"Each input goes through every public decode entry point in an isolated child process (address space capped at 16 GiB, stack 256 MiB, CPU watchdog of 60 CPU-s plus 300 s per GiB the call allocates (at most 12 GiB counted), an overrun re-run alone before it counts, journalled per call): lexer under 12 option combinations (4 fixed + 8 seeded out of all 256), 15 Parse*/PopulateFrom functions on the raw bytes and on every record body, NewReader/Info/ChannelCounts/GetMetadata/GetAttachmentReader at reported and boundary offsets, Messages in 8 modes. " +
 		"Oracle: no panic escapes, the process survives, CPU budget kept, no single object >= 2^31 bytes (exact per-site accounting with MemProfileRate=1 for inputs on which a single call allocated 2 GiB or more in total), and with MaxRecordSize/MaxDecompressedChunkSize = 1 MiB no object allocated by package mcap above 2 MiB + 64 KiB. distinct_nontrivial counts distinct inputs on which at least one entry point returned data or an error."
 	rep.Assumptions = []string{"panics are recovered per call inside the worker; fatal terminations are attributed through the journal", "allocation accounting: runtime.MemStats.TotalAlloc deltas (exact) as filter, runtime.MemProfile with rate 1 for attribution"}
 	nStruct, nRand, nSplice := ctx.Pick(6000, 250000), ctx.Pick(2000, 60000), ctx.Pick(1200, 40000)
